@@ -143,6 +143,206 @@ def run_synapse(case):
     return {"ok": worst == 0.0, "detail": where, "maxdiff": worst, "events": nsp}
 
 
+# ---------------------------------------------------------------- per-sample delay selectors (third stream)
+def _sel_value(rnd, cls, dt, delay, span, tol, kmax):
+    """one selector (time before present, ms) of the given class; ``kmax``: largest grid step used"""
+    nst = int(round(span / dt))
+    k = rnd.randint(0, min(nst, kmax))
+    eps = tol if tol > 0 else 1e-7
+    sg = rnd.choice([-1.0, 1.0])
+    if cls == "grid":
+        return k * dt
+    if cls == "near_in":          # within the tolerance of a stored step (on the step itself when the tolerance is 0)
+        return k * dt + (sg * tol * rnd.uniform(0.05, 0.9))
+    if cls == "near_out":         # off a stored step by more than the tolerance, by less than tolerance * (largest time)
+        return k * dt + sg * eps * rnd.uniform(1.1, 1.5 + max(1.0, span))
+    if cls == "unif":
+        return rnd.uniform(0.0, delay)
+    if cls == "gap":              # beyond the configured delay, inside the record (off-grid maximum delays)
+        return rnd.uniform(delay, span) if span > delay else delay
+    if cls == "delay":
+        return delay + rnd.choice([0.0, 0.0, sg * tol * 0.5, sg * eps * 3.0])
+    if cls == "span":
+        return span + rnd.choice([0.0, 0.0, sg * tol * 0.5, sg * eps * 3.0])
+    if cls == "beyond":
+        return span + rnd.uniform(0.05, 3.0) * dt
+    if cls == "neg":
+        return -rnd.choice([rnd.uniform(1e-3, 2.0) * dt, tol * 0.5, eps * 3.0])
+    raise AssertionError(cls)
+
+
+INSIDE = ["grid", "grid", "near_in", "near_out", "near_out", "unif", "gap", "gap", "delay", "span"]
+OUTSIDE = ["beyond", "beyond", "neg"]
+PROFILES = ["in", "in", "low", "low", "any", "out"]
+
+
+def make_selectors(rnd, B, shape, D, dt, delay, span, tol):
+    """(B, *shape[, D]) selectors, PER SAMPLE: every sample draws its own profile - 'in': nothing outside the record
+    (but beyond an off-grid maximum delay, on/near stored steps, ...), 'low': only small times on / near stored steps,
+    'out': some selectors outside the record, 'any': everything.  The profiles of the samples of one query differ, so that
+    anything computed over the whole selector tensor (extrema, any()) differs between the batch and the single samples."""
+    nst = int(round(span / dt))
+    n = 1
+    for s_ in shape:
+        n *= s_
+    n *= max(D, 1)
+    rows, profs = [], []
+    for b in range(B):
+        prof = rnd.choice(PROFILES)
+        profs.append(prof)
+        if prof == "low":
+            kmax = max(1, nst // 3)
+            row = [_sel_value(rnd, rnd.choice(["grid", "near_in", "near_out", "near_out"]), dt, delay, span, tol, kmax)
+                   for _ in range(n)]
+            row = [min(max(v, 0.0), delay) for v in row]
+        elif prof == "in":
+            row = [min(max(_sel_value(rnd, rnd.choice(INSIDE), dt, delay, span, tol, nst), 0.0), span) for _ in range(n)]
+        elif prof == "out":
+            row = [_sel_value(rnd, rnd.choice(INSIDE + OUTSIDE * 3), dt, delay, span, tol, nst) for _ in range(n)]
+            row[rnd.randrange(n)] = _sel_value(rnd, rnd.choice(OUTSIDE), dt, delay, span, tol, nst)
+        else:
+            row = [_sel_value(rnd, rnd.choice(INSIDE + OUTSIDE), dt, delay, span, tol, nst) for _ in range(n)]
+        rows.append(row)
+    sel = torch.tensor(rows, dtype=torch.float64).reshape((B, *shape, D) if D else (B, *shape))
+    return sel, profs
+
+
+AT_METHODS = ("current_at", "spike_at", "pos_current_at", "neg_current_at")
+
+
+def query_per_sample(rnd, big, small, B, D, tol, nq, tag):
+    """relational oracle for delayed reads with per-sample selectors: sample b of the batched query == the batch-1 query of
+    sample b, for every *_at method the synapse has; returns (worst difference, where, number of compared reads)"""
+    dt, delay = float(big.dt), float(big.delay)
+    span = dt * (big.spike_.recordsz - 1)
+    worst, where, nq_done = 0.0, None, 0
+    for q in range(nq):
+        sel, profs = make_selectors(rnd, B, tuple(big.shape), D, dt, delay, span, tol)
+        for nm in AT_METHODS:
+            if not hasattr(big, nm):
+                continue
+            rb = getattr(big, nm)(sel)
+            if tuple(rb.shape) != tuple(sel.shape):
+                return math.inf, f"{tag} {nm}: result shape {tuple(rb.shape)} for selector shape {tuple(sel.shape)}", nq_done
+            for b in range(B):
+                rs = getattr(small[b], nm)(sel[b:b + 1])
+                d = maxdiff(rb[b:b + 1], rs)
+                nq_done += 1
+                if d > worst:
+                    j = int((rb[b:b + 1].to(torch.float64) - rs.to(torch.float64)).abs().reshape(-1).argmax())
+                    worst = d
+                    where = (f"{tag} query {q} sample {b} {nm}: selector {sel[b].reshape(-1)[j].item()!r} gives "
+                             f"{rb[b].reshape(-1)[j].item()!r} in the batch, {rs.reshape(-1)[j].item()!r} alone "
+                             f"(profiles {profs}, delay {delay}, span {span}, tolerance {tol}, "
+                             f"selectors of the sample {[round(v, 6) for v in sel[b].reshape(-1).tolist()]})")
+    return worst, where, nq_done
+
+
+def run_synapse_sel(case):
+    """delayed reads of a batched synapse with PER-SAMPLE selectors vs the batch-1 copies (all four classes; off-grid
+    maximum delays, selectors inside (delay, span], beyond the span, negative, near stored steps within / outside a non-zero
+    interpolation tolerance, with and without overbound values)"""
+    import random as _r
+    spec, B, T = case["spec"], case["B"], case["T"]
+    g = torch.Generator().manual_seed(case["seed"])
+    rnd = _r.Random(case["seed"] + 1)
+    big = factory.build_synapse(dict(spec, batch=B))
+    small = [factory.build_synapse(dict(spec, batch=1)) for _ in range(B)]
+    tol = float(spec.get("kw", {}).get("interp_tol", 0.0))
+    worst, where, nsp, nread = 0.0, None, 0, 0
+    for t in range(T):
+        x = rand_spikes(g, (B, *spec["shape"]), case.get("p", 0.5))
+        nsp += int(x.sum())
+        extra = ()
+        if spec["cls"] == "DeltaPlusCurrent":
+            extra = (((torch.rand((B, *spec["shape"]), generator=g) * 16).round() / 8),)
+        big(x, *extra)
+        for b in range(B):
+            small[b](x[b:b + 1], *(e[b:b + 1] for e in extra))
+        d, w, k = query_per_sample(rnd, big, small, B, case["D"], tol, case.get("queries", 2), f"step {t}")
+        nread += k
+        if d > worst:
+            worst, where = d, w
+    return {"ok": worst == 0.0, "detail": where, "maxdiff": worst, "events": nsp, "reads": nread}
+
+
+# ---------------------------------------------------------------- adaptation coupling = the documented reduction
+def midrange(x, dim):
+    """a custom batch reduction (none of the torch built-ins); identity on a batch of one like all the others"""
+    return 0.5 * (x.amax(dim) + x.amin(dim))
+
+
+NEURON_REDUCTIONS = {"none": None, "mean": torch.mean, "sum": torch.sum, "amax": torch.amax, "amin": torch.amin,
+                     "custom": midrange}
+
+
+def build_neuron_red(spec, batch, red):
+    kw = dict(factory.NEURON_DEFAULTS[spec["cls"]])
+    kw.update({k: factory._tup(v) for k, v in spec.get("kw", {}).items()})
+    kw["batch_size"] = batch
+    if red != "default":
+        kw["batch_reduction"] = NEURON_REDUCTIONS[red]
+    return getattr(neural, spec["cls"])(tuple(spec["shape"]), spec["dt"], **kw)
+
+
+def _adaptation(n):
+    return n.threshold_adaptation if hasattr(n, "threshold_adaptation") else n.current_adaptation
+
+
+def _set_adaptation(n, v):
+    if hasattr(n, "threshold_adaptation"):
+        n.threshold_adaptation = v
+    else:
+        n.current_adaptation = v
+
+
+def run_neuron_adapt(case):
+    """adaptation updates RUNNING (training mode / adapt=True): the only cross-sample coupling is the documented batch
+    reduction - every step, from the shared adaptation: spikes / voltages / refracs of sample b == those of the batch-1
+    instance, and the batched adaptation == batch_reduction applied to the B batch-1 instances' adaptations"""
+    spec, B, T, red = case["spec"], case["B"], case["T"], case["reduction"]
+    g = torch.Generator().manual_seed(case["seed"])
+    big = build_neuron_red(spec, B, red)
+    small = [build_neuron_red(spec, 1, red) for _ in range(B)]
+    redf = NEURON_REDUCTIONS.get(red) or torch.mean
+    if case.get("via") == "train":
+        kw = {}
+        for n in [big] + small:
+            n.train()
+    else:
+        kw = {"adapt": True}
+        for n in [big] + small:
+            n.eval()
+    worst, where, nsp, moved = 0.0, None, 0, 0.0
+    for t in range(T):
+        start = _adaptation(big).clone()
+        for s_ in small:
+            _set_adaptation(s_, start.clone())
+        x = (torch.rand((B, *spec["shape"]), generator=g) * case.get("scale", 80.0) - 10.0)
+        x = (x * 8).round() / 8
+        sb = big(x, **kw)
+        nsp += int(sb.sum())
+        for b in range(B):
+            ss = small[b](x[b:b + 1], **kw)
+            if not torch.equal(sb[b:b + 1], ss):
+                return {"ok": False, "detail": f"step {t} sample {b}: spikes differ", "step": t, "what": "spike"}
+            for nm in ("voltage", "refrac"):
+                d = maxdiff(getattr(big, nm)[b:b + 1], getattr(small[b], nm))
+                if d > worst:
+                    worst, where = d, f"step {t} sample {b} {nm}"
+        got = _adaptation(big)
+        want = redf(torch.stack([_adaptation(s_) for s_ in small], 0), 0)
+        moved = max(moved, float((got - start).abs().max()))
+        d = maxdiff(got, want)
+        if d > worst:
+            j = int((got - want).abs().reshape(-1).argmax())
+            worst = d
+            where = (f"step {t}: batched adaptation {got.reshape(-1)[j].item()!r} is not the '{red}' reduction of the "
+                     f"per-sample adaptations {want.reshape(-1)[j].item()!r} "
+                     f"({[_adaptation(s_).reshape(-1)[j].item() for s_ in small]})")
+    return {"ok": worst == 0.0, "detail": where, "maxdiff": worst, "events": nsp if moved > 0 else 0}
+
+
 def in_shape(conn):
     return tuple(conn.inshape)
 
@@ -163,6 +363,8 @@ def run_connection(case):
     for s in small:
         copy_params(big, s)
     worst, where, nsp = 0.0, None, 0
+    import random as _r
+    selrnd = _r.Random(case["seed"] + 1)
     if path:
         rz = case["resize"]
         for k, b0 in enumerate(path):
@@ -184,6 +386,12 @@ def run_connection(case):
                 d = maxdiff(u, v)
                 if d > worst:
                     worst, where = d, f"step {t} sample {b} {nm}"
+        if case.get("sel"):      # per-sample delayed reads on the connection's synapse (the connection's own are batch-shared)
+            d, w, _ = query_per_sample(selrnd, big.synapse, [s.synapse for s in small], B, case["sel"]["D"],
+                                       float(spec["synapse"].get("kw", {}).get("interp_tol", 0.0)),
+                                       case["sel"].get("queries", 1), f"step {t}")
+            if d > worst:
+                worst, where = d, w
     return {"ok": worst == 0.0, "detail": where, "maxdiff": worst, "events": nsp}
 
 
@@ -427,7 +635,7 @@ def run_trainer(case):
 
 
 RUN = {"neuron": run_neuron, "synapse": run_synapse, "connection": run_connection, "layer": run_layer,
-       "trainer": run_trainer}
+       "trainer": run_trainer, "synapse_sel": run_synapse_sel, "neuron_adapt": run_neuron_adapt}
 
 
 def handler(payload):
